@@ -111,8 +111,7 @@ func genRingCtor(t *rapid.T) RingCase {
 	if rapid.IntRange(0, 9).Draw(t, "mutate") < 4 {
 		return c
 	}
-	// modulus 0 is not generated: ring.NewRing divides by it before any check (GenBRedConstant), rlwe.CheckModuli filters it
-	muts := []string{"dup", "composite", "nonNTT", "one", "empty"}
+	muts := []string{"dup", "composite", "nonNTT", "zero", "one", "empty"}
 	if m > uint64(2)<<uint(c.LogN) {
 		// the class that separates "1 mod 2N" from "1 mod the root order"
 		muts = append(muts, "halfFriendly", "halfFriendly", "halfFriendly", "halfFriendlyAll", "stdFriendly")
@@ -166,6 +165,15 @@ func runRingCtor(c RingCase, rec *h.Rec) error {
 	}
 	r, err := c.build()
 	if err != nil {
+		if r != nil {
+			// ring.go: "An error is returned with a nil *Ring in the case of non NTT-enabling parameters"
+			key := "C19:ring:error-with-non-nil-ring"
+			msg := fmt.Sprintf("%s(N=%d, %v) returned the error %q together with a non-nil *Ring", c.Ctor, 1<<uint(c.LogN), c.Moduli, err)
+			if !rec.Known(key, msg) {
+				return h.Failf(key, "%s", msg)
+			}
+			rec.Class("known=" + key)
+		}
 		if len(viol) == 0 {
 			return h.Failf("C19:ring:"+c.Ctor+":rejected-valid", "distinct primes = 1 mod %d rejected: %v", c.nthRoot(), err)
 		}
